@@ -156,6 +156,27 @@ func runC10(c *Ctx) {
 					c.report("consumed", fmt.Sprintf("%s consumed %d bytes of a %d-byte file", api, cl.Ret.Consumed, len(b)), cl)
 				}
 			}
+			// the same through a reader that can seek, and Decode with each option set:
+			// neither may change what is consumed
+			if j == 0 {
+				for _, api := range []string{"decode", "integrity", "header", "header_fileid", "integrity_hdr"} {
+					cl := run(api, trail, readScript{cut: -1, fault: -1, withSeek: true}, fmt.Sprintf("pool[%d] + trailing bytes, seekable reader", i))
+					members[cl.ID] = [][]byte{b}
+					if (api == "decode" || api == "integrity") && cl.Ret.Err == 0 && cl.Ret.Consumed != len(b) {
+						c.report("consumed", fmt.Sprintf("%s consumed %d bytes of a %d-byte file behind a seekable reader", api, cl.Ret.Consumed, len(b)), cl)
+					}
+				}
+				for o := 1; o < 8; o += 2 + i%2 {
+					id++
+					cl := p.runCall(id, "decode", trail, rs, CallOpts{UF: o & 1, UM: (o >> 1) & 1, Log: (o >> 2) & 1}, true)
+					cl.Note = fmt.Sprintf("pool[%d] + trailing bytes, options %d", i, o)
+					calls = append(calls, cl)
+					members[cl.ID] = [][]byte{b}
+					if cl.Ret.Err == 0 && cl.Ret.Consumed != len(b) {
+						c.report("consumed", fmt.Sprintf("Decode with options %+v consumed %d bytes of a %d-byte file", cl.Opts, cl.Ret.Consumed, len(b)), cl)
+					}
+				}
+			}
 			// DecodeHeader / DecodeHeaderAndFileID must return what Decode reports
 			if d := got["decode"]; d.Ret.Err == 0 && len(d.Ret.Files) == 1 {
 				want, _ := json.Marshal(d.Ret.Files[0].Hdr)
